@@ -33,8 +33,12 @@ class RustCheck:
         return None
 
     # ------------------------------------------------------------------ type mapping of the statement
-    def rust_type(self, t: Dict) -> str:
+    def rust_type(self, t: Dict, top: bool = True) -> str:
+        """Mapped Rust type.  At the top of a property the Option wrapper of a null-admitting type is checked separately; a
+        null-admitting type NESTED in an array / map / tuple / union maps to Option<T> (null is a value there)."""
         k = t["kind"]
+        if not top and k in ("or", "tuple") and any(i["kind"] == "base" and i["name"] == "null" for i in t["items"]):
+            return f"Option<{self.rust_type(t, True)}>"
         if k == "base":
             if t["name"] == "null":
                 return "LSPNull"
@@ -47,16 +51,16 @@ class RustCheck:
                 return f"CustomStringEnum<{n}>" if self.mm.enumerations[n]["type"]["name"] == "string" else f"CustomIntEnum<{n}>"
             return n
         if k == "array":
-            return f"Vec<{self.rust_type(t['element'])}>"
+            return f"Vec<{self.rust_type(t['element'], False)}>"
         if k == "map":
-            return f"HashMap<{self.rust_type(t['key'])},{self.rust_type(t['value'])}>"
+            return f"HashMap<{self.rust_type(t['key'], False)},{self.rust_type(t['value'], False)}>"
         if k == "or":
-            subs = [self.rust_type(i) for i in t["items"] if not (i["kind"] == "base" and i["name"] == "null")]
+            subs = [self.rust_type(i, False) for i in t["items"] if not (i["kind"] == "base" and i["name"] == "null")]
             if len(subs) == 1:
                 return subs[0]
             return f"OR{len(subs)}<{','.join(subs)}>"
         if k == "tuple":
-            subs = [self.rust_type(i) for i in t["items"] if not (i["kind"] == "base" and i["name"] == "null")]
+            subs = [self.rust_type(i, False) for i in t["items"] if not (i["kind"] == "base" and i["name"] == "null")]
             return subs[0] if len(subs) == 1 else f"({','.join(subs)})"
         if k == "literal":
             return LIT if t["value"]["properties"] else "LSPObject"
